@@ -1,6 +1,6 @@
 """C07 — configuration of the check (deductive tier under construction)."""
 PROPERTY = "C07"
-LEVEL = "other"
+LEVEL = "exploration"
 CONTRACT_MODULES = ["contracts.specfuns"]
 FUNCTIONS = []
 LEMMAS = []
